@@ -180,10 +180,15 @@ def leanchecker(module):
     return rc == 0, out[-600:]
 
 
-def proof_obligations(module, required, thorough=False):
-    """Step 1 of every check.  Returns dict with obligations/discharged/failed/axioms."""
+def proof_obligations(module, required, thorough=False, extra_modules=()):
+    """Step 1 of every check.  Returns dict with obligations/discharged/failed/axioms.
+    `extra_modules`: further property files whose theorems this property relies on (e.g. the refinement
+    theorem): they are built and audited too and count as obligations of this check."""
     t0 = time.time()
     ok, log = lean_build(module)
+    for em in extra_modules:
+        if ok:
+            ok, log = lean_build(em)
     res = {"module": module, "build_ok": ok, "failed": [], "axioms": {}, "obligations": 0,
            "discharged": 0, "forbidden_hits": [], "leanchecker": None}
     if not ok:
@@ -193,10 +198,16 @@ def proof_obligations(module, required, thorough=False):
     hits = forbidden_scan()
     res["forbidden_hits"] = hits
     names = theorems_in(module)
-    missing = [r for r in required if r not in names]
+    extra_names = {em: theorems_in(em) for em in extra_modules}
+    allnames = names + [n for em in extra_modules for n in extra_names[em]]
+    missing = [r for r in required if r not in allnames]
     for m in missing:
         res["failed"].append("required theorem missing: " + m)
     ax = audit_axioms(module, names) if names else {}
+    for em in extra_modules:
+        if extra_names[em]:
+            ax.update(audit_axioms(em, extra_names[em]))
+    names = allnames
     res["axioms"] = ax
     res["obligations"] = len(names) + len(missing)
     for n, a in ax.items():
@@ -210,10 +221,11 @@ def proof_obligations(module, required, thorough=False):
         res["failed"].append("forbidden tokens in Lean sources: " + "; ".join(hits[:5]))
         res["discharged"] = 0
     if thorough and ok:
-        lok, lout = leanchecker(module)
-        res["leanchecker"] = "ok" if lok else lout
-        if not lok:
-            res["failed"].append("leanchecker rejected " + module + ": " + lout)
+        for m in [module] + list(extra_modules):
+            lok, lout = leanchecker(m)
+            res["leanchecker"] = "ok" if lok and res.get("leanchecker") in (None, "ok") else (res.get("leanchecker") or lout)
+            if not lok:
+                res["failed"].append("leanchecker rejected " + m + ": " + lout)
     res["wall_s"] = round(time.time() - t0, 2)
     return res
 
